@@ -265,7 +265,7 @@ func putProtoLabelIndices(ctx *datastore.VersionedCtx, dataIn []byte) (numAdded,
 	if err = pb.Unmarshal(dataIn, indices); err != nil {
 		return
 	}
-	var maxLabel uint64
+	// Refuse a malformed batch as a whole, before any of its indices is stored.
 	for i, protoIdx := range indices.Indices {
 		if protoIdx == nil {
 			err = fmt.Errorf("indices included a nil index in position %d", i)
@@ -275,6 +275,9 @@ func putProtoLabelIndices(ctx *datastore.VersionedCtx, dataIn []byte) (numAdded,
 			err = fmt.Errorf("index %d had label 0, which is a reserved label", i)
 			return
 		}
+	}
+	var maxLabel uint64
+	for _, protoIdx := range indices.Indices {
 		if len(protoIdx.Blocks) == 0 {
 			if err = deleteLabelIndex(ctx, protoIdx.Label); err != nil {
 				return
